@@ -11,6 +11,7 @@ Oracle   renaming is a homomorphism on token streams: built once with plain uniq
 """
 from __future__ import annotations
 
+import json
 import sqlite3
 
 from hypothesis import HealthCheck, given, seed, settings, strategies as st
@@ -46,7 +47,7 @@ def templates(cls):
 
     t["select_join"] = lambda N: q(
         [["from_", [["src", "A"]]], ["join", [["src", "B"], ["enum", "JoinType", "left"]], {}, ["on", [["eq", ["col", "A", N[5]], ["col", "B", N[6]]]]]],
-         ["select", [["as", ["col", "A", N[5]], N[7]], ["col", "B", N[6]], ["star", "A"]]], ["where", [["gt", ["col", "B", N[8]], ["raw", 1]]]],
+         ["select", [["as", ["col", "A", N[5]], N[7]], ["col", "B", N[6]]]], ["where", [["gt", ["col", "B", N[8]], ["raw", 1]]]],
          ["groupby", [["as", ["col", "A", N[5]], N[7]]]], ["orderby", [["as", ["col", "A", N[5]], N[7]], ["col", "B", N[6]]]]],
         {"A": T(N[0], N[1], N[2]), "B": T(N[3], None, N[4])})
     t["db_schema_table"] = lambda N: q([["from_", [["src", "A"]]], ["select", [["col", "A", N[3]]]], ["join", [["src", "B"], ["enum", "JoinType", "inner"]], {}, ["using", [["py", N[5]]]]]],
@@ -71,6 +72,7 @@ def templates(cls):
                                 {"A": T(N[1]), "C": ["cte", N[0]]})
     t["create"] = lambda N: q([["create_table", [["py", N[0]]]], ["columns", [["py", N[1]], ["pytuple", [["py", N[2]], ["py", "INT"]]], ["column", N[3], "INT", True, ["raw", 5]]]],
                                ["unique", [["py", N[1]], ["py", N[2]]]], ["primary_key", [["py", N[3]]]], ["period_for", [["py", N[4]], ["py", N[1]], ["py", N[2]]]]], {})
+    t["create_make_columns"] = lambda N: q([["create_table", [["py", N[0]]]], ["columns", [["mkcols", [["py", N[1]], ["pytuple", [["py", N[2]], ["py", "INT"]]], ["py", N[3]]]]]]], {})
     t["create_table_obj"] = lambda N: q([["create_table", [["src", "A"]]], ["columns", [["py", N[2]]]], ["if_not_exists", []]], {"A": T(N[0], N[1])})
     t["create_as_select"] = lambda N: q([["create_table", [["py", N[0]]]], ["as_select", [["q", sub(N)]]]], {})
     t["drop"] = lambda N: q([["drop_table", [["src", "A"]]], ["if_exists", []]], {"A": T(N[0], N[1])})
@@ -130,6 +132,12 @@ def site_of(tokens, i):
     return kw + ":" + role
 
 
+# (dialect, template, slot) of names a dialect legitimately does not print
+NOT_RENDERED = set()
+# identifiers the library writes on its own
+LIBRARY_NAMES = set()
+
+
 def check_names(cls, tname, names):
     """-> list of (failure, site, detail)"""
     tm = templates(cls).get(tname)
@@ -145,6 +153,19 @@ def check_names(cls, tname, names):
         return [("raises:" + type(e).__name__, tname, "names %r: %r" % (names, e))]
     tp, ta = lex.lex(s_plain, cls), lex.lex(s_adv, cls)
     out = []
+    # (0) every name the program supplies is emitted at least once ("denoting exactly the supplied name": a name replaced
+    #     by something else - in the plain and in the adversarial rendering alike - is invisible to the comparison below)
+    supplied = [n for n in PLAIN if json.dumps(n) in json.dumps(tm(PLAIN))]
+    emitted = {t.value for t in tp if t.kind == "qid"}
+    for n in supplied:
+        if n not in emitted and (cls, tname, PLAIN.index(n)) not in NOT_RENDERED:
+            out.append(("name_not_emitted", tname, "supplied name %r (slot %d) occurs nowhere in %r" % (n, PLAIN.index(n), s_plain)))
+    # ... and every quoted identifier is a supplied name (something else in a name's place is not "the supplied name")
+    for i, t in enumerate(tp):
+        if t.kind == "qid" and t.value not in PLAIN and t.value not in LIBRARY_NAMES:
+            out.append(("foreign_identifier", site_of(tp, i), "identifier %r in %r is none of the supplied names" % (t.text, s_plain)))
+    if out:
+        return out[:3]
     qc = quote_of(cls)
     mapping = dict(zip(PLAIN, names))
     # (1) every plain name occurrence is one correctly quoted identifier token
@@ -214,14 +235,39 @@ def valid_case(case):
         return False
 
 
+# name sets that are always tried (every template, every class): lengths 1 and 2 (helpers that take "a name or a (name, x) pair" must not
+# mistake a two-character name for a pair), keywords, the quote characters, dots and spaces
+FIXED_NAME_SETS = [
+    ["ab", "cd", "ef", "gh", "ij", "kl", "mn", "op", "qr", "st", "uv", "wx"],
+    ["a", "b", "c", "d", "e", "f", "g", "h", "i", "j", "k", "l"],
+    ["1a", "a.", ".b", "a b", "x'", 'y"', "z`", "--", "/*", "%s", "$1", "é"],
+    ["select", "from", "where", "group", "order", "table", "user", "NULL", "Select", "index", "key", "values"],
+]
+
+
 def shards(tier, sd):
     n = 6 if tier == "quick" else 24
-    return [(tier, sd * 1000 + k) for k in range(n)]
+    return [(tier, sd * 1000 + k) for k in range(n)] + [("fixed", 0)]
 
 
 def run_shard(shard):
     tier, sd = shard
     col = Collector()
+    if tier == "fixed":
+        for names0 in FIXED_NAME_SETS:
+            names = (names0 * 3)[:NN] if len(names0) < NN else names0[:NN]
+            names = [n + ("" if names.index(n) == i else str(i)) for i, n in enumerate(names)]  # keep them distinct
+            for cls in CTXS:
+                if not admissible(names, cls):
+                    col.count("inadmissible_names")
+                    continue
+                for tname in templates(cls):
+                    case = {"cls": cls, "template": tname, "names": names}
+                    col.case(case, True, classes=("fixed_names", "template:" + tname))
+                    for f, sgn, d in check_names(cls, tname, names):
+                        if not f.startswith("__"):
+                            col.violation(sig_of(cls, tname, f, sgn), case, d)
+        return col
     nex = 150 if tier == "quick" else 2500
     all_templates = sorted({k for c in CTXS for k in templates(c)})
 
